@@ -511,6 +511,10 @@ func (s *Server) handleSession(clientMAC net.HardwareAddr, data []byte) {
 	case ProtocolPAP:
 		s.handlePAP(session, pppPayload)
 	case ProtocolIPCP:
+		// IP-layer negotiation is only available to authenticated sessions
+		if !session.Authenticated {
+			return
+		}
 		s.handleIPCP(session, pppPayload)
 	case ProtocolIP:
 		s.handleIPPacket(session, pppPayload)
